@@ -415,3 +415,6 @@ def run(chk, repo):
     from rules.shared import optname
     chk.clauses.append('C10.g (shared R-THREAD) an option value bound to a name that is itself a CLI option carries that very option')
     optname(chk, repo, 'C10.g', ['cli.generate_index', 'cli.update_index'], floor=0)
+    from rules.shared import kwname
+    chk.clauses.append('C10.kw (shared R-THREAD) parameters handed on as keyword arguments keep their name: no `a=b` between two parameters of one function')
+    kwname(chk, repo, 'C10.kw', ['aa.AminoAcidSeqRecord', 'aa.AminoAcidSeqDict', 'cli.generate_index', 'cli.update_index'], floor=0)
